@@ -289,7 +289,7 @@ def coerce_spec(pd, r):
 class C05(Prop):
     ID = 'C05'
     N_QUICK = 20000
-    N_THOROUGH = 160000
+    N_THOROUGH = 120000
     RULE = ('a case = one port (driver-defined with an instant or a slow driver, or a virtual port created through POST /ports) '
             'with a definition (type, min, max, step, integer, choices incl. bool/number collisions, enabled, '
             'writable, write transform; a share of degenerate non-well-formed ones) x 4..14 operations: value writes '
